@@ -389,7 +389,16 @@ func runUnit(c *vf.Ctx, o *op, name string, n, maxShift int) {
 				case len(got) != len(pre)+need || !bytes.Equal(got[len(pre):], ref):
 					cls = "returns CORRUPTED output"
 				}
-				c.Violation(fmt.Sprintf("%s: inexactly overlapping buffers do not panic (%s)%s", family(name), cls, g), det())
+				d := det()
+				d["observed"] = cls
+				if g != "" {
+					// special-role geometry: what comes back depends on data coincidences (an
+					// overwritten byte may happen to equal the byte it replaces), so the class names
+					// the geometry only and the observation goes into the detail
+					c.Violation(fmt.Sprintf("%s: inexactly overlapping buffers do not panic%s", family(name), g), d)
+				} else {
+					c.Violation(fmt.Sprintf("%s: inexactly overlapping buffers do not panic (%s)", family(name), cls), d)
+				}
 				continue
 			}
 			// returned: must be exactly the separate-buffer result, appended to the prefix
